@@ -494,6 +494,26 @@ class RecordingEvents:
                        errtype=(type(error).__name__ if error is not None else None))
 
 
+class SecondEvents:
+    """A second event manager behind RecordingEvents in the chart's list: never suspends, never raises; records
+    `cb2_*` events.  Every manager has to see the same lifecycle, whatever the managers before it do."""
+
+    async def _cb(self, name, ctx, node_id=None, **data):
+        S.ev('cb2_' + name, ctx.pipeline_id, _nid(node_id) if node_id is not None else None, **data)
+
+    async def on_pipeline_start(self, ctx):
+        await self._cb('pipeline_start', ctx)
+
+    async def on_pipeline_complete(self, ctx, result):
+        await self._cb('pipeline_complete', ctx, rid=id(result))
+
+    async def on_node_start(self, ctx, node_id):
+        await self._cb('node_start', ctx, node_id)
+
+    async def on_node_complete(self, ctx, node_id, error):
+        await self._cb('node_complete', ctx, node_id, err=(id(error) if error is not None else None))
+
+
 def make_store_class():
     from ml_pipeline_engine.artifact_store.store.base import ArtifactStore
 
